@@ -106,6 +106,19 @@ func main() {
 		verbose := fs.Bool("v", false, "print SMT file names")
 		fs.Parse(os.Args[2:])
 		os.Exit(runUnits(repo, verif, fs.Args(), *verbose))
+	case "selftest":
+		prop := ""
+		if len(os.Args) > 2 {
+			prop = os.Args[2]
+		}
+		total, caught, rep := runSelftest(repo, verif, prop, 10*time.Second)
+		for _, l := range rep {
+			fmt.Println(l)
+		}
+		fmt.Printf("selftest: %d/%d seeded changes caught\n", caught, total)
+		if caught != total {
+			os.Exit(2)
+		}
 	case "list":
 		e := newEngine(repo, verif)
 		if err := e.loadContracts(); err != nil {
